@@ -204,6 +204,25 @@ func init() {
 				f.Header.Mask = [4]byte{1, 2, 3, 4}
 				f = ws.UnmaskFrame(f)
 				out = f.Payload
+			case "umf0": // masked with the (legal) all-zero key
+				f := ws.NewBinaryFrame(p)
+				f.Header.Masked = true
+				f = ws.UnmaskFrame(f)
+				out = f.Payload
+			case "umfu": // an unmasked frame through the copying helper
+				f := ws.UnmaskFrame(ws.NewBinaryFrame(p))
+				out = f.Payload
+			case "mfw0":
+				f := ws.MaskFrameWith(ws.NewBinaryFrame(p), [4]byte{})
+				out = f.Payload
+			}
+			// the copying helpers return the caller's own frame: whatever is done to it later (forwarding it masked
+			// in place, say) must not reach the bytes that were passed in
+			switch a[1] {
+			case "mf", "mfw", "umf", "umf0", "umfu", "mfw0":
+				for i := range out {
+					out[i] ^= 0xff
+				}
 			}
 			for _, w := range d.writes {
 				out = append(out, w...)
@@ -303,7 +322,7 @@ func genC17(tier string, r *rng) {
 			run(fmt.Sprintf("ali rm %s %s %s", sd, hx(one), hx(ch)))
 			run(fmt.Sprintf("ali rm %s %s %s", sd, hx(frag), hx(ch)))
 		}
-		for _, kind := range []string{"wm", "wt", "big", "buffered", "cwr", "mf", "mfw", "umf"} {
+		for _, kind := range []string{"wm", "wt", "big", "buffered", "cwr", "mf", "mfw", "umf", "umf0", "umfu", "mfw0"} {
 			for _, n := range []int{0, 1, 7, 8, 9, 31, 100, 127, 128, 1000, 5000} {
 				run(fmt.Sprintf("ali wr %s %s %s", kind, sd, hx(r.bytes(n))))
 			}
